@@ -102,6 +102,15 @@ NEEDS = {
  'C13-f': ('C13', ['C16'], 'read() hands str(tree) instead of the source to the line table: spacers dropped before argument groups shift every later line/column'),
  'C14-f': ('C14', ['C15'], 'the .string setter of an environment swaps only the visible text piece: hidden blank-only pieces of the body (`\\begin{quote}\\n\\nwords`) survive next to the new string'),
  'C17-f': ('C17', ['C06'], 'read() raises the interpreter recursion limit for sources with many braces and never restores it: a deeply nested document fails before and parses after an unrelated long parse'),
+ 'C06-g': ('C06', ['C09'], 'read_item peeks with the signature (1, 0) like read_env: every item-level command argument is read twice, so `\\item a \\x{\\item a \\x{..}}` costs 2^depth (depth 40 does not come back)'),
+ 'C07-g': ('C07', ['C06'], 'a free brace group inside a definition body keeps the special mode but loses the tolerance: a lost `]` inside it makes tolerant parsing raise TypeError'),
+ 'C08-g': ('C08', ['C16', 'C09'], '`frac` added to the signature table with two mandatory arguments: `$\\frac1{n}$` prints with invented braces (the side condition names only \\def, \\textbf, \\section, \\label)'),
+ 'C09-g': ('C09', ['C02'], 'in special mode a command without arguments takes a following bare command as its argument (posing as support for `\\newcommand\\name`): `\\small\\emph{#1}` inside a definition body'),
+ 'C10-g': ('C10', ['C19'], 'comments are scanned in blocks of 256 characters with an off-by-one for a line break at a block start: a comment line of exactly 256k characters swallows its line break'),
+ 'C15-g': ('C15', ['C04', 'C05'], 'TexExpr.all yields a bare-command argument (`\\def\\foo`) as a child: it shows up in descendants/search, but the edit code cannot find its holder (raises, or edits a twin)'),
+ 'C18-g': ('C18', ['C05'], 'TexExpr.__eq__ returns early when the numbers of children differ: an unparsed `{A \\textbf{b}}` string no longer equals the parsed group, so remove(str) raises or removes a later element'),
+ 'C19-g': ('C19', ['C12', 'C08'], 'sizing commands skip blanks between prefix and delimiter but emit the canonical name: `\\left (` consumes the blank and emits `left(`'),
+ 'C20-g': ('C20', [], 'Buffer.__next__ advances the cursor before it knows an item exists: each failed next() at the end moves the cursor one further'),
 }
 
 
